@@ -103,7 +103,8 @@ def plant(rng, spec, cls):
     return set_at(spec, path, new), depth
 
 
-SKIPS = [None, None, 'self', 'base', ['GlomError'], ['ValueError'], ['KeyError', 'UPlain'], ['Exception'], ['BaseException'], ['LookupError']]
+SKIPS = [None, None, 'self', 'base', ['GlomError'], ['ValueError'], ['KeyError', 'UPlain'], ['Exception'], ['BaseException'], ['LookupError'],
+         []]      # skip_exc=() given explicitly: nothing is skipped (and the default default is None)
 
 
 def gen_opts(rng, cls):
